@@ -34,6 +34,26 @@ def _isinf(I, args, kw):
     return VBool(False)
 
 
+def _json_loads(I, args, kw):
+    """json.loads(s) for a str argument: either raises (json.JSONDecodeError, a ValueError; or RecursionError for
+    deeply nested input) or returns an *arbitrary* JSON-like value (Dyn): nothing is assumed about how the value
+    relates to the text.  Floats are reals (the NaN/Infinity literals accepted by the stdlib parser are outside
+    the model, A-REAL); keyword arguments (cls, object_hook, ...) are not supported."""
+    from .dyn import TDyn
+    if kw:
+        raise Unsupported("json.loads with keyword arguments")
+    v = I.force(args[0])
+    if not isinstance(v, VStr):
+        I.raise_exc("TypeError", "the JSON object must be str, bytes or bytearray")
+    I.ver.note_assumption("json.loads(str) returns an arbitrary JSON-like value (Dyn) or raises ValueError/RecursionError; "
+                          "no relation between text and value is assumed")
+    if I.path.branch(I.path.fresh("json_decode_error", z3.BoolSort())):
+        raise PyRaise(VExc("JSONDecodeError", [VStr(I.path.fresh("json_err_msg", z3.StringSort()))]))
+    if I.path.branch(I.path.fresh("json_recursion_error", z3.BoolSort())):
+        raise PyRaise(VExc("RecursionError", [VStr("maximum recursion depth exceeded")]))
+    return I.fresh_value(TDyn, "json_value")
+
+
 def _np_asarray(I, args, kw):
     """numpy.asarray(v, dtype=...) on an opaque vector value: the same abstract vector (the float32 cast is part of
     the numeric layer that the contracts treat as uninterpreted)."""
@@ -528,6 +548,7 @@ TABLE = {
     ("pathlib", "Path"): _pathlib_path,
     ("json", "dumps"): _json_dumps,
     ("contextvars", "ContextVar"): _ctxvar,
+    ("json", "loads"): _json_loads,
     ("math", "sqrt"): _sqrt,
     ("math", "isfinite"): _isfinite,
     ("math", "isnan"): _isnan,
